@@ -19,6 +19,10 @@ def pool_file(rng, ctx, pts, cross, ncomp, n):
     for _ in range(n):
         sx, sy, d = rng.choice(pts)
         props = random_props(rng, ncomp, 5)
+        if rng.random() < 0.4:
+            # the full list, as the tools ask for it: every composition's models run (a random short list rarely names the one
+            # composition a special model writes)
+            props = [(1, 0, 0)] + [(2, k, 0) for k in range(min(ncomp, 6))] + [(3, 0, 3), (4, 0, 0), (5, 0, 0)]
         if cross and rng.random() < 0.3:
             (x2, z2), _s = wg.section_query(ctx, cross, rng.uniform(-0.2, 1.2), d)
             lines.append('2\t%s\t%s\t%s\t%s' % (core.hx(x2), core.hx(z2), core.hx(d), core.props_str(props)))
@@ -56,7 +60,7 @@ def main(tier, seed, replay):
     rng = random.Random(seed * 99991 + 14)
     V = core.Verdict(PID, tier, seed)
     V.coverage['rule'] = ('(library) the ThreadSanitizer build of the monitor process: 2-32 threads behind a barrier, each running the same pool of mixed queries (half the threads in the same order, half shuffled) against one '
-                          'world without random models; every answer compared bitwise with the single threaded answer; ThreadSanitizer reports counted from the log (deduplicated by kind + repository frames); '
+                          'world without random models (the pool of worlds covers every model plugin the repository inputs use, found by a greedy cover, plus generated worlds; points preselected inside features); every answer compared bitwise with the single threaded answer; ThreadSanitizer reports counted from the log (deduplicated by kind + repository frames); '
                           '(tool) gwb-grid (tsan and asan builds) with -j in {1,2,3,5,7,8,16,33,40} on grids whose node count is prime, smaller than the thread count, or large: every VTU byte-identical to the -j 1 file; '
                           '(self-test) a random-model world from 4 threads must produce a ThreadSanitizer report; non-trivial = (world, thread count) runs with overlapping calls, and (grid, -j) pairs')
     quick = tier == 'quick'
@@ -64,30 +68,64 @@ def main(tier, seed, replay):
     shutil.rmtree(workdir, ignore_errors=True)
     os.makedirs(workdir)
     # ---------------------------------------------------------------- library
-    n_corpus, n_gen = (10, 20) if quick else (60, 300)
+    n_corpus, n_gen = (4, 10) if quick else (60, 300)
     rounds = 2 if quick else 4
     files = [p for p in corpus.world_files() if not corpus.is_random(p)]
     rng.shuffle(files)
-    descs = [d for d in (corpus.describe(p) for p in files) if d][:n_corpus]
+    all_descs = [d for d in (corpus.describe(p) for p in files) if d]
+    # every (feature type, kind, model) plugin the corpus uses is in the pool (greedy cover), plus random further files; the query
+    # points are preselected single threaded so that most of them are owned by a feature (a model is only run inside its feature)
+    cover = corpus.covering_set(all_descs)
+    descs = cover + [d for d in all_descs if d not in cover][:n_corpus]
+    V.coverage['model_plugins_in_the_pool'] = sorted('%s/%s/%s' % t for t in set().union(*[corpus.model_signature(d) for d in descs]))
     jobs = []
     cases = []
     k = 0
-    for d in descs:
+    for d, pts in zip(descs, corpus.inside_points('asan', PID + '_scan', descs, rng, 1500 if quick else 6000, 24, 4)):
         ctx = corpus.ctx_for(d)
-        jobs.append((d['path'], ctx, corpus.sample_points(rng, d, 25), d['cross'], d['ncomp']))
+        jobs.append((d['path'], ctx, pts, d['cross'], d['ncomp']))
     for i in range(n_gen):
         wrng = random.Random(rng.getrandbits(48))
-        w = wg.gen_world(wrng, {'nfeatures': (1, 5)})
+        wg.EXTRA['water'] = 0.5 if i % 2 else 0.0
+        try:
+            w = wg.gen_world(wrng, {'nfeatures': (1, 5)})
+        finally:
+            wg.EXTRA['water'] = 0.0
         fn = os.path.join(workdir, 'g%d.wb' % i)
         with open(fn, 'w') as f:
             f.write(wg.dumps(w['json']))
         jobs.append((fn, w['truth']['ctx'], wg.sample_points(wrng, w, 25, p_inside=0.8), w['truth']['cross'], w['truth']['ncomp']))
+    # the plugin tour: single feature worlds, every kind of model present with its whole-feature range, generated until every
+    # (feature type, kind, model) the generator knows (incl. tian water content) has its own world; 30 points inside the feature
+    seen = set()
+    ntour = 0
+    wg.EXTRA['water'], wg.EXTRA['no_ranges'] = 0.5, True
+    try:
+        for attempt in range(400):
+            wrng = random.Random(rng.getrandbits(48))
+            ftype = wg.ALL_TYPES[attempt % len(wg.ALL_TYPES)]
+            w = wg.gen_world(wrng, {'nfeatures': 1, 'types': [ftype], 'p_temperature': 1.0, 'p_composition': 1.0, 'p_grains': 1.0, 'p_velocity': 1.0, 'sections': False,
+                                    'segment_models': False, 'exotic': False})
+            sig = corpus.model_signature({'doc': w['json']})
+            if not (sig - seen):
+                continue
+            seen |= sig
+            fn = os.path.join(workdir, 'tour%d.wb' % ntour)
+            ntour += 1
+            with open(fn, 'w') as f:
+                f.write(wg.dumps(w['json']))
+            ft = w['truth']['features'][0]
+            pts = [wg.point_in_feature(wrng, w['truth']['ctx'], ft) for _ in range(30)]
+            jobs.append((fn, w['truth']['ctx'], pts, w['truth']['cross'], w['truth']['ncomp']))
+    finally:
+        wg.EXTRA['water'], wg.EXTRA['no_ranges'] = 0.0, False
+    V.coverage['plugin_tour'] = {'worlds': ntour, 'model_plugins': sorted('%s/%s/%s' % t for t in seen)}
     plan = []
     for (path, ctx, pts, cross, ncomp) in jobs:
         k += 1
         poolfn = os.path.join(workdir, 'pool%d.txt' % k)
         with open(poolfn, 'w') as f:
-            f.write(pool_file(rng, ctx, pts, cross, ncomp, 150))
+            f.write(pool_file(rng, ctx, pts, cross, ncomp, 200))
         c = core.Case('s%d' % k)
         c.add('world', 1, 1, 0, 0, '-', path)
         threads = rng.sample([2, 4, 8, 16, 32], 2 if quick else 5)
